@@ -47,6 +47,8 @@ class Mini:
             if c is None:
                 return Sym(t)
             return self.ev(node.body) if c else self.ev(node.orelse)
+        if isinstance(node, ast.Dict) and all(k is not None for k in node.keys):
+            return {self.ev(k): self.ev(v) for k, v in zip(node.keys, node.values)}
         if isinstance(node, (ast.Compare, ast.BoolOp)) or (isinstance(node, ast.UnaryOp) and isinstance(node.op, ast.Not)):
             c = self.truth(node)
             return c if c is not None else Sym(t)
@@ -58,6 +60,8 @@ class Mini:
                     return base[idx]
                 except IndexError:
                     return Sym(t)
+            if isinstance(base, dict) and idx is not None and not isinstance(idx, Sym) and idx in base:
+                return base[idx]
             return Sym(t)
         if isinstance(node, ast.Call):
             f = node.func
@@ -67,6 +71,13 @@ class Mini:
             self.calls.append((ft, args, kw, node))
             if ft == "cast" and len(args) == 2:
                 return args[1]
+            if isinstance(f, ast.Attribute) and f.attr == "get" and len(args) in (1, 2) and not isinstance(args[0], Sym):
+                base = self.ev(f.value)
+                if isinstance(base, dict):
+                    try:
+                        return base.get(args[0], args[1] if len(args) == 2 else None)
+                    except TypeError:
+                        pass
             if ft == "len" and len(args) == 1 and not isinstance(args[0], Sym) and isinstance(args[0], (str, bytes, list, tuple)):
                 return len(args[0])
             if isinstance(f, ast.Attribute) and f.attr == "join" and len(args) == 1 and isinstance(args[0], (list, tuple)):
@@ -909,6 +920,15 @@ def fmt_parts(fn, e, keep=()):
             return out
         if isinstance(x, ast.Call) and isinstance(x.func, ast.Name) and x.func.id == "str" and len(x.args) == 1 and not x.keywords:
             return [("expr", canon_ast(x.args[0]))]
+        if isinstance(x, ast.Call) and isinstance(x.func, ast.Attribute) and x.func.attr == "join" and lit(x.func.value) and len(x.args) == 1 \
+                and not x.keywords and isinstance(x.args[0], (ast.List, ast.Tuple)) and not any(isinstance(e_, ast.Starred) for e_ in x.args[0].elts):
+            out = []
+            for i, e_ in enumerate(x.args[0].elts):
+                if i and x.func.value.value:
+                    out.append(x.func.value.value)
+                r = rec(e_)
+                out += r if r is not None else [("expr", canon_ast(e_))]
+            return out
         return None
 
     parts = rec(e)
@@ -1179,3 +1199,125 @@ def emitted_lines(fn, stmts=None):
         if rv in joined:
             return seq
     return None
+
+
+# ---------------------------------------------------------------- decision tables over classified predicates
+class _FuseComp(ast.NodeTransformer):
+    """{k: f(v) for k, v in ((a(x), b(x)) for x in S)}  ->  {a(x): f(b(x)) for x in S}   (same for list / generator forms)"""
+
+    def _fuse(self, node):
+        self.generic_visit(node)
+        if len(node.generators) != 1:
+            return node
+        g = node.generators[0]
+        inner = g.iter
+        if isinstance(g.target, ast.Tuple) and isinstance(inner, (ast.GeneratorExp, ast.ListComp)) and len(inner.generators) == 1 and not g.ifs \
+                and isinstance(inner.elt, ast.Tuple) and len(inner.elt.elts) == len(g.target.elts) and all(isinstance(t, ast.Name) for t in g.target.elts):
+            import copy
+            m = {t.id: e for t, e in zip(g.target.elts, inner.elt.elts)}
+
+            class S(ast.NodeTransformer):
+                def visit_Name(self, n):
+                    if n.id in m and isinstance(n.ctx, ast.Load):
+                        return copy.deepcopy(m[n.id])
+                    return n
+
+            if hasattr(node, "elt"):
+                node.elt = S().visit(node.elt)
+            else:
+                node.key = S().visit(node.key)
+                node.value = S().visit(node.value)
+            node.generators = inner.generators
+        return node
+
+    visit_DictComp = visit_ListComp = visit_GeneratorExp = visit_SetComp = _fuse
+
+
+def canon_value(e):
+    import copy
+    e = _FuseComp().visit(copy.deepcopy(e))
+    ast.fix_missing_locations(e)
+    return canon_ast(e)
+
+
+def path_return(p):
+    """canonical text of the value returned on symexec path p, by sequential substitution of the plain local assignments made
+    on that path (parameters and attribute reads stay symbolic)"""
+    import copy
+    if hasattr(p, "_path_return"):
+        return p._path_return
+    p._path_return = None
+    env = {}
+    for s_ in p.steps:
+        st = s_.ast
+        if s_.kind == "stmt" and isinstance(st, ast.Assign) and len(st.targets) == 1 and isinstance(st.targets[0], ast.Name):
+            env[st.targets[0].id] = _SubstEnv(env).visit(copy.deepcopy(st.value))
+        elif s_.kind == "stmt" and isinstance(st, ast.AnnAssign) and isinstance(st.target, ast.Name) and st.value is not None:
+            env[st.target.id] = _SubstEnv(env).visit(copy.deepcopy(st.value))
+        elif s_.kind == "for" and isinstance(st, ast.For):
+            for t in ast.walk(st.target):
+                if isinstance(t, ast.Name):
+                    env.pop(t.id, None)
+    if p.ret_node is None or p.ret_node.value is None:
+        return None
+    p._path_return_ast = _SubstEnv(env).visit(copy.deepcopy(p.ret_node.value))
+    p._path_return = canon_value(p._path_return_ast)
+    return p._path_return
+
+
+def path_return_ast(p):
+    """the expression behind path_return(p) (an AST), or None"""
+    path_return(p)
+    return getattr(p, "_path_return_ast", None)
+
+
+def path_tests(p):
+    """[(test AST with the path's plain local assignments substituted, taken)] for the branch tests on path p"""
+    import copy
+    env = {}
+    out = []
+    for s_ in p.steps:
+        st = s_.ast
+        if s_.kind == "stmt" and isinstance(st, ast.Assign) and len(st.targets) == 1 and isinstance(st.targets[0], ast.Name):
+            env[st.targets[0].id] = _SubstEnv(env).visit(copy.deepcopy(st.value))
+        elif s_.kind == "test" and s_.label in ("true", "false") and st is not None and hasattr(st, "test"):
+            out.append((_SubstEnv(env).visit(copy.deepcopy(st.test)), s_.label == "true"))
+    return out
+
+
+def decision_table(paths, atoms):
+    """atoms: {name: recogniser(node) -> True (the atom) / False (its negation) / None}.  For every truth assignment of the atoms,
+    the set of paths whose every test evaluates (three-valued, short-circuit) to the branch the path took.
+    Returns {assignment tuple: [path, ...]} and the list of tests no atom explains."""
+    import itertools
+    names = sorted(atoms)
+    table = {}
+    unknown = []
+    tests_of = {id(p): path_tests(p) for p in paths}
+    for vals in itertools.product((True, False), repeat=len(names)):
+        asg = dict(zip(names, vals))
+
+        def atom(node):
+            for nm in names:
+                r = atoms[nm](node)
+                if r is not None:
+                    return asg[nm] == r
+            return None
+
+        feas = []
+        for p in paths:
+            ok = True
+            for tst, taken in tests_of[id(p)]:
+                v = bool_eval(tst, atom)
+                if v is None or v == "undef":
+                    if _txt(tst) not in unknown:
+                        unknown.append(_txt(tst))
+                    ok = False
+                    break
+                if v != taken:
+                    ok = False
+                    break
+            if ok:
+                feas.append(p)
+        table[vals] = feas
+    return names, table, unknown
